@@ -72,6 +72,8 @@ def _goal(case, out):
         fl.append(_b("f" in a)); ism.append(_b("m" in a)); dk.append(b); succs.append(_nats(c))
     evs = []
     for t in ([] if trace == "-" else trace.split(",")):
+        if t == "CX":
+            return None  # cancellation layer (Model/CopyCancel.v): not re-evaluated by this hook
         e = _event(t)
         if e is None:
             return None
